@@ -24,6 +24,7 @@ connection error (ConnectionShutdown / ConnectionException, or the decode / prot
 that triggered it); nothing is delivered to it afterwards; a send after the failure raises
 ConnectionShutdown; paging sessions got on_error exactly once and no page after it.
 """
+import functools
 import itertools
 import random
 
@@ -136,6 +137,15 @@ def consumer_view(h):
     return ['error' if item[2] is not None else 'page' for item in reversed(s._page_queue)]
 
 
+class _CallableHandler(object):
+    """a handler that is a callable instance (no __name__, no __qualname__)"""
+    def __init__(self, fn):
+        self._fn = fn
+
+    def __call__(self, arg):
+        return self._fn(arg)
+
+
 class DirectRun(object):
     def __init__(self, mods, v):
         self.P, self.C, self.F, Bare = mods
@@ -165,12 +175,24 @@ class DirectRun(object):
                 s.on_error = lambda error: (h['errors'].append((next(self.seq), error)), real_err(error))[1]
                 h['session'] = s
                 s.on_message(arg)
+            if h.get('raises') and isinstance(arg, Exception):
+                # an application callback that blows up while being told about the failure: the others must still be told
+                raise RuntimeError("handler of request %d raises on %s" % (h['tag'], type(arg).__name__))
+        # the driver itself registers functools.partial objects and bound methods as handlers, not only plain functions
+        shape = (tag * 7 + self.v) % 5
+        if shape == 1:
+            handler = functools.partial(cb)
+        elif shape == 2:
+            handler = _CallableHandler(cb)
+        else:
+            handler = cb
+        h['raises'] = (not cp) and (tag * 13 + self.v) % 6 == 0
         with conn.lock:
             rid = conn.get_request_id()
             conn.in_flight += 1
         h['rid'] = rid
         try:
-            conn.send_msg(P.OptionsMessage(), rid, cb)
+            conn.send_msg(P.OptionsMessage(), rid, handler)
         except C.ConnectionShutdown:
             self.refused += 1
             return False
